@@ -8,7 +8,7 @@ import torch
 
 from aggs import catalogue
 from common import Ctx
-from matrices import m_int, to_tensor
+from matrices import dependent_rows, m_int, to_tensor
 from prop_C03 import TRUSTED
 from prop_C08 import attempt, relerr, well_conditioned
 
@@ -27,15 +27,26 @@ def one(ctx: Ctx, spec, dtype, m, exhaustive):
         base = [Fr(rng.randint(1, 9)) for _ in range(n)]
         J = [[Fr(rng.choice([1, 3, 7, 20])) * b + Fr(rng.randint(-3, 3), 16) for b in base] for _ in range(m)]
         ctx.count("family", "aligned-unbalanced")
+    elif spec.pinv and not spec.solver and m >= 3 and rng.random() < 0.3:
+        # rank-deficient with an unambiguous rank: one row is a combination of two others (not a duplicate)
+        J = dependent_rows(rng, m, rng.choice([m - 1, m, m + 2]))
+        n = len(J[0])
+        ctx.count("family", "dependent-rows")
     elif spec.pinv or spec.solver or spec.ties or spec.threshold:
         J = well_conditioned(rng, m, n)
     else:
         J = [[Fr(rng.randint(-9, 9)) + Fr(rng.randint(0, 7), 8) for _ in range(n)] for _ in range(m)]   # no exact ties
+    zero_row = None
+    if spec.pref == "pref" and m >= 3 and rng.random() < 0.25:
+        # an objective whose gradient vanishes exactly (anywhere but necessarily last), with a NON-uniform preference
+        zero_row = rng.randrange(m - 1)
+        J = [([Fr(0)] * len(r) if i == zero_row else r) for i, r in enumerate(J)]
+        ctx.count("family", "zero-row-with-preference")
     Jt = to_tensor(J, dtype)
     import prop_C08
     prop_C08._FLOOR[0] = float(Jt.abs().max())
     pv = None
-    if spec.pref is not None and (rng.random() < 0.7 or spec.pref == "weights"):
+    if spec.pref is not None and (rng.random() < 0.7 or spec.pref == "weights" or zero_row is not None):
         if spec.pref == "leak":
             pv = [rng.choice([0.0, 0.25, 0.5, 0.75, 1.0]) for _ in range(m)]
         elif spec.pref == "weights":
